@@ -447,6 +447,9 @@ class SCTPParser(HeaderParser):
             ])
             remainer = remainer[32:]
         
+        if remainer.length > 0:
+            raise ParserError(buffer=buffer, message=f'{remainer.length} bits left after the announced gap ack blocks and duplicate TSNs')
+
         return fields
     
     def _parse_chunk_heartbeat(self, buffer: Buffer) -> List[FieldDescriptor]:
@@ -528,6 +531,8 @@ class SCTPParser(HeaderParser):
         fields: List[FieldDescriptor] = []
         
         fields: List[FieldDescriptor] = []
+        if buffer.length > 32:
+            raise ParserError(buffer=buffer, message=f'SHUTDOWN chunk value longer than 4 bytes: {buffer.length} bits')
         cumulative_tsn_ack: Buffer = buffer[0:32]
         fields.append(FieldDescriptor(id=SCTPFields.CHUNK_SHUTDOWN_CUMULATIVE_TSN_ACK, value=cumulative_tsn_ack, position=0))
             
@@ -542,6 +547,8 @@ class SCTPParser(HeaderParser):
         +-+-+-+-+-+-+-+-+-+-+-+-+-+-+-+-+-+-+-+-+-+-+-+-+-+-+-+-+-+-+-+-+
         """
         fields: List[FieldDescriptor] = []    
+        if buffer.length > 0:
+            raise ParserError(buffer=buffer, message=f'chunk without value carries {buffer.length} bits')
         return fields
     
     def _parse_chunk_error(self, buffer: Buffer) -> List[FieldDescriptor]:
@@ -593,6 +600,8 @@ class SCTPParser(HeaderParser):
         +-+-+-+-+-+-+-+-+-+-+-+-+-+-+-+-+-+-+-+-+-+-+-+-+-+-+-+-+-+-+-+-+
         """
         fields: List[FieldDescriptor] = []    
+        if buffer.length > 0:
+            raise ParserError(buffer=buffer, message=f'chunk without value carries {buffer.length} bits')
         return fields
     
     def _parse_chunk_shutdown_complete(self, buffer: Buffer) -> List[FieldDescriptor]:
@@ -604,6 +613,8 @@ class SCTPParser(HeaderParser):
         +-+-+-+-+-+-+-+-+-+-+-+-+-+-+-+-+-+-+-+-+-+-+-+-+-+-+-+-+-+-+-+-+
         """
         fields: List[FieldDescriptor] = []    
+        if buffer.length > 0:
+            raise ParserError(buffer=buffer, message=f'chunk without value carries {buffer.length} bits')
         return fields
         
     def _parse_parameter(self, buffer: Buffer) -> Tuple[List[FieldDescriptor], int]:
